@@ -37,6 +37,13 @@
       BindElem k k' n  foreach: context[k] = n-th element of the (already formatted) list
       SetInt k z       decorator counters (retryCounter)
       Probe            harness probe step: snapshot of the context (by value) onto the trace
+      SaveError t      Step.save_error of a failing step whose onError is t: runErrors (created on
+                       demand) gets a new entry whose customError is format(t) — a rebuilt copy;
+                       a formatting error propagates (the definition's onError is never exposed)
+      Raise e          the step's error is not swallowed: the run ends with e
+      BindPath k k' p  pypyr.steps.set  k: !py k'[..][..]   (the SAME object found along the
+                       subscripts p, e.g. runErrors[-1]['customError']); also the target of
+                       pypyr.steps.py  "k'[..][..].append(z)"
 
     Step bodies' own arguments (set:, append:, contextMerge: ...) are [tree]s, not heap
     objects: the code only ever formats them (a rebuilt copy), so nothing can alias them. *)
@@ -363,6 +370,9 @@ Definition snap (fuel : nat) (dh : heap) (p : priv) : snapshot :=
       (filter (fun kc => negb (hidden (fst kc))) (ctx p)).
 
 (* ---------------------------------------------------------------- operations *)
+(* a python subscript: x[-1] or x['s'] *)
+Inductive sel := SLast | SKey (s : string).
+
 Inductive op :=
 | InjectIn (k : string) (c : cell)
 | Unset (k : string)
@@ -376,7 +386,10 @@ Inductive op :=
 | Defaults (ps : list (string * tree))
 | BindElem (k k' : string) (n : nat)
 | SetInt (k : string) (z : Z)
-| Probe.
+| Probe
+| SaveError (t : tree)
+| Raise (e : string)
+| BindPath (k k' : string) (path : list sel).
 
 Definition FUEL : nat := 40.
 
@@ -410,6 +423,31 @@ Definition bind_new_list (k : string) (a : cell) (p : priv) : priv :=
    put the definition's own object into the context.  Kept (a) as the witness of why the repair
    was needed (Props/C12.v, Example C12_why_the_repair_was_needed) and (b) because [step] below
    is this machine with a different InjectIn.  NOT the model the check uses. *)
+Fixpoint walk (dh h : heap) (c : cell) (path : list sel) : cell + string :=
+  match path with
+  | [] => inl c
+  | s :: rest =>
+    match c with
+    | CInt _ => inr "TypeError"
+    | CPtr i =>
+      match hget dh h i, s with
+      | Some (OList l), SLast =>
+        match nth_error l (List.length l - 1) with
+        | Some c' => walk dh h c' rest
+        | None => inr "IndexError"
+        end
+      | Some (OList _), SKey _ => inr "TypeError"
+      | Some (ODict d), SKey k =>
+        match aget k d with
+        | Some c' => walk dh h c' rest
+        | None => inr "KeyError"
+        end
+      | Some (ODict _), SLast => inr "KeyError"
+      | None, _ => inr "<dangling>"
+      end
+    end
+  end.
+
 Definition step_aliasing (dh : heap) (p : priv) (o : op) : heap * priv :=
   if negb (running p) then (dh, p) else
   match o with
@@ -483,6 +521,27 @@ Definition step_aliasing (dh : heap) (p : priv) (o : op) : heap * priv :=
     end
   | SetInt k z => (dh, set_ctx (aset k (CInt z) (ctx p)) p)
   | Probe => (dh, mkpriv (ctx p) (ph p) (st p) (trace p ++ [snap FUEL dh p]))
+  | SaveError t =>
+    (* failure = {.., 'customError': get_formatted_value(on_error), ..};
+       context.setdefault('runErrors', []).append(failure) *)
+    let '(p1, c) := fmt FUEL dh t p in
+    if running p1 then
+      let '(p2, e) := alloc (ODict [("customError", c)]) p1 in
+      match aget "runErrors" (ctx p2) with
+      | None => (dh, bind_new_list "runErrors" e p2)
+      | Some r => append_to dh p2 r e
+      end
+    else (dh, p1)
+  | Raise e => (dh, fail e p)
+  | BindPath k k' path =>
+    match aget k' (ctx p) with
+    | None => (dh, fail "NameError" p)
+    | Some c =>
+      match walk dh (ph p) c path with
+      | inl c' => (dh, set_ctx (aset k c' (ctx p)) p)
+      | inr e => (dh, fail e p)
+      end
+    end
   end.
 
 (* THE MODEL: Step.set_step_input_context and pypyr.steps.configvars do
@@ -703,7 +762,9 @@ Definition check_op (T : list string) (o : op) : option (list string) :=
   | Merge ps => fold_taint merge_taint T ps
   | Defaults ps => fold_taint defaults_taint T ps
   | SetInt k _ => Some (untaint k T)
-  | Probe => Some T
+  | Probe | Raise _ => Some T
+  | SaveError t => if tainted T "runErrors" || byref_tainted T t then None else Some T
+  | BindPath k k' _ => Some (if tainted T k' then taint k T else untaint k T)
   end.
 
 Definition disciplined (ops : list op) : bool :=
